@@ -749,6 +749,66 @@ func (r *Run) differential1(tag string, A *build, withRecipes bool) {
 		}
 	}
 	r.stats.Probes["diff-recipe-rounds"]++
+	r.offlineSizes(qs, base)
+}
+
+// offlineSizes compares the offline writer with the one-batch build on a
+// corpus of its own: 9-48 generated documents written one, two or three per
+// offline batch, so that the number of offline segments crosses the offline
+// writer's merge fan-in (10) once or twice, with and without a remainder -
+// the corpora the runs end with are usually too small for that.
+func (r *Run) offlineSizes(qs []qSpec, base bluge.Config) {
+	t := r.t
+	if !t.Chance(1, 2, "diff.offsizes") {
+		return
+	}
+	n := 9 + t.Draw(40, "diff.offsizes.n")
+	docs := make([]*DocSpec, n)
+	for i := range docs {
+		docs[i] = genDoc(t, fmt.Sprintf("s%03d", i), fmt.Sprintf("s.%03d", i), r.k.Geo)
+	}
+	per := t.Draw(3, "diff.offsizes.per") // documents per offline batch = per + 1
+	ref, err := memBuild("one-batch", docs, n+1, base, true)
+	if err != nil {
+		r.fail("layout-build", fmt.Sprintf("building %d generated documents in one batch failed: %v", n, err))
+		return
+	}
+	defer ref.close()
+	dir := filepath.Join(r.root, "offline-sizes")
+	_ = os.RemoveAll(dir)
+	ob, err := offlineBuild(dir, docs, per, r.k.SegVer)
+	if err != nil {
+		r.fail("layout-build", fmt.Sprintf("OfflineWriter(batch size %d) over %d generated documents failed: %v", per, n, err))
+		return
+	}
+	defer ob.close()
+	for _, q := range append([]qSpec{{"match-all", func() bluge.Query { return bluge.NewMatchAllQuery() }}}, qs...) {
+		want, err1 := ref.answer(q, false)
+		got, err2 := ob.answer(q, false)
+		if err1 != nil || err2 != nil {
+			r.fail("layout-search", fmt.Sprintf("query %s on %d generated documents: one-batch %v, offline writer %v", q.Desc, n, err1, err2))
+			return
+		}
+		r.stats.Probes["diff-offline-sizes-comparisons"]++
+		switch {
+		case got.set != want.set:
+			r.fail("layout-match-set", fmt.Sprintf("query %s over %d generated documents: build %s (%d documents per offline batch) matches {%s}, build one-batch matches {%s}", q.Desc, n, ob.name, per+1, got.set, want.set))
+		case got.fields != want.fields:
+			r.fail("layout-stored-fields", fmt.Sprintf("query %s over %d generated documents: stored fields differ between build %s and build one-batch", q.Desc, n, ob.name))
+		case got.sorted != want.sorted || got.page != want.page:
+			r.fail("layout-sort-order", fmt.Sprintf("query %s over %d generated documents: build %s returns [%s], build one-batch [%s]", q.Desc, n, ob.name, got.sorted, want.sorted))
+		case got.aggs != want.aggs:
+			r.fail("layout-aggregations", fmt.Sprintf("query %s over %d generated documents: build %s aggregates %q, build one-batch %q", q.Desc, n, ob.name, got.aggs, want.aggs))
+		case got.noScore != want.set:
+			r.fail("layout-match-set", fmt.Sprintf("query %s over %d generated documents with scoring turned off: build %s matches {%s}, build one-batch {%s}", q.Desc, n, ob.name, got.noScore, want.set))
+		}
+		if r.failed() {
+			return
+		}
+	}
+	if segs := (n + per) / (per + 1); segs > 10 {
+		r.stats.Probes["diff-offline-more-than-10-segments"]++
+	}
 }
 
 func offlineBuild(dir string, docs []*DocSpec, batchSize int, segVer int) (b *build, err error) {
